@@ -349,10 +349,7 @@ partial def evalO (j : Json) : M O := do
         match FL.extend (← node (← evalO a)) items with
         | some o => pure (.fl o)
         | none => unmodelled "extend"
-  | [Json.str "imul", a, n] => do
-      match FL.imul (← node (← evalO a)) (← liftD (getInt n)) with
-      | some o => pure (.fl o)
-      | none => unmodelled "imul"
+  | [Json.str "imul", a, n] => do liftP (Obj.mulInt (← evalO a) (← liftD (getInt n)))
   | [Json.str "slice", a, i, jj] => do
       match FL.slice (← node (← evalO a)) (← liftD (getNat i)) (← liftD (getNat jj)) with
       | some o => pure o
